@@ -1476,6 +1476,11 @@ void Executor<OptionsTy>::go() {
     } else {
       this->calculateWindow(false);
 
+      // calculateWindow() reads every thread's counters, nextWindow() resets
+      // this thread's: as on the inner path, nobody may reset before
+      // everybody has read, or the threads compute different windows
+      barrier.wait();
+
       this->pushNextWindow(tld.wlnext, local.nextWindow());
     }
   }
